@@ -234,19 +234,28 @@ class Run:
     def obj(self, ref):
         return self.heap[ref.oid]
 
-    def solver(self, extra=()):
+    def solver(self, extra=(), timeout=400):
         from . import smt
-        s, risky = smt.lifted_solver(list(self.ctx.facts) + list(self.pc) + list(extra), 400)
+        s, risky = smt.lifted_solver(list(self.ctx.facts) + list(self.pc) + list(extra), timeout)
         s.risky = risky
         return s
 
-    def feasible(self, cond):
+    def feasible(self, cond, timeout=400):
         if isinstance(cond, bool):
             cond = z3.BoolVal(cond)
-        s = self.solver([cond])
+        # the same condition is asked again and again under the same path condition while clauses are evaluated
+        # (also across the replays of the decision-replay exploration: they rebuild identical, hash-consed terms)
+        cache = self.ctx.__dict__.setdefault("_feas_cache", {})
+        key = (tuple(p.get_id() if is_z3(p) else id(p) for p in self.pc), len(self.ctx.facts), cond.get_id(), timeout)
+        hit = cache.get(key)
+        if hit is not None and hit[0] is cond:
+            return hit[1]
+        s = self.solver([cond], timeout)
         r = s.check()
         # an unsat answer prunes the path: not accepted when the query could not be brought into the trusted fragment
-        return r != z3.unsat or s.risky
+        res = r != z3.unsat or s.risky
+        cache[key] = (cond, res, list(self.pc))     # keeps the terms alive, so their ids stay valid
+        return res
 
     def assume(self, cond):
         if cond is True:
@@ -725,10 +734,11 @@ class Interp:
         if isinstance(c, bool):
             return self.ev(e.body if c else e.orelse, fr)
         if fr.spec is not None or (self.pure_expr(e.body) and self.pure_expr(e.orelse)):
-            # a condition decided by the path condition is resolved here (keeps terms free of dead branches)
-            if not self.run.feasible(z3.Not(c)):
+            # a condition decided by the path condition is resolved here (keeps terms free of dead branches); this is an
+            # optimisation only, so it gets a small solver budget ('unknown' keeps both branches)
+            if not self.run.feasible(z3.Not(c), 120):
                 return self.ev(e.body, fr)
-            if not self.run.feasible(c):
+            if not self.run.feasible(c, 120):
                 return self.ev(e.orelse, fr)
             a = self.ev_guarded(e.body, fr, c)
             b = self.ev_guarded(e.orelse, fr, NOT(c))
@@ -1423,7 +1433,7 @@ class Interp:
             if mode is None:
                 mode = "contract" if self.ctx.reg.has_contract(fi.qualname) and self.ctx.reg.contracts[
                     fi.qualname].get("modular", False) else "inline"
-            if mode == "contract":
+            if mode == "contract" or (isinstance(mode, str) and mode.startswith("contract:")):
                 return self.ctx.reg.apply_contract(self, fi, args, kwargs, fr, node)
             if mode == "model":
                 return self.ctx.models.call_external(self, "repo." + fi.qualname, args, kwargs, fr, node)
@@ -1675,6 +1685,8 @@ class Interp:
             _, a, b, st = it
             if st != 1:
                 raise Unsupported("range step", node)
+            a = run.unopt(a, "range bound") if isinstance(a, SOpt) else a
+            b = run.unopt(b, "range bound") if isinstance(b, SOpt) else b
             n = arith("-", b, a)
             n = run.ite(cmp("<", n, 0), 0, n) if is_z3(n) else max(n, 0)
             return n, (lambda k: arith("+", a, k))
